@@ -136,7 +136,7 @@ def main():
         pool = multiprocessing.Pool(2, c01._init, (tools, scr, opts))
     else:
         pool = multiprocessing.Pool(min(16, vlib.NCPU), c01._init, (tools, scr, opts))
-        n = 600 if not ck.thorough() else 40000
+        n = 1500 if not ck.thorough() else 40000
         base = ck.rng.randrange(1 << 30)
         jobs = c01.corpus_jobs(PID) + c01.directed_jobs() + special_jobs(ck) + c01.shipped_jobs() + [('gen', base + i) for i in range(n)]
         results = pool.map(c01.job, jobs, chunksize=4)
